@@ -420,6 +420,10 @@ func (t c01dTrigVisitor) Enter(x pjs.INode) pjs.IVisitor {
 				*t.foreign = true
 			}
 		}
+	case *pjs.ForInStmt:
+		c01dForLet(t.forLet, []pjs.IExpr{n.Init}, n.Body)
+	case *pjs.ForOfStmt:
+		c01dForLet(t.forLet, []pjs.IExpr{n.Init}, n.Body)
 	case *pjs.ForStmt:
 		head := c01dNameVisitor{map[string]bool{}}
 		for _, part := range []pjs.IExpr{n.Init, n.Cond, n.Post} {
@@ -443,6 +447,28 @@ func (t c01dTrigVisitor) Enter(x pjs.INode) pjs.IVisitor {
 	return t
 }
 func (t c01dTrigVisitor) Exit(x pjs.INode) {}
+
+// c01dForLet: the head of a for-in / for-of loop uses a name that the body declares with let / const
+func c01dForLet(flag *bool, parts []pjs.IExpr, body *pjs.BlockStmt) {
+	head := c01dNameVisitor{map[string]bool{}}
+	for _, part := range parts {
+		if part != nil {
+			if d, ok := part.(*pjs.VarDecl); ok && d.TokenType != pjs.VarToken {
+				continue
+			}
+			pjs.Walk(head, part)
+		}
+	}
+	for _, s := range body.List {
+		if d, ok := s.(*pjs.VarDecl); ok && d.TokenType != pjs.VarToken {
+			for _, it := range d.List {
+				if v, ok := it.Binding.(*pjs.Var); ok && head.names[string(v.Data)] {
+					*flag = true
+				}
+			}
+		}
+	}
+}
 
 // c01dLoopTailVanishes: the statement is a loop (possibly inside loops / blocks / labels) whose body has at least two
 // statements and ends in a statement that can disappear when the body is optimized (var declaration, empty statement,
